@@ -90,22 +90,27 @@ func (is *idleSweep) pollerLoop() {
 
 func (is *idleSweep) checkIdleConnections() {
 	now := is.ch.timeNow()
+	verifPoint("idle.sweep.afterNow", 0)
 
 	// Acquire the read lock and examine which connections are idle.
 	idleConnections := make([]*Connection, 0, 10)
 	is.ch.mutable.RLock()
 	for _, conn := range is.ch.mutable.conns {
+		verifPoint("idle.sweep.look", conn.connID)
 		if is.isIdle(conn, now) {
 			idleConnections = append(idleConnections, conn)
 		}
 	}
 	is.ch.mutable.RUnlock()
+	verifPoint("idle.sweep.collected", 0)
 
 	for _, conn := range idleConnections {
+		verifPoint("idle.sweep.check", conn.connID)
 		// It's possible that the connection is already closed when we get here.
 		if !conn.IsActive() {
 			continue
 		}
+		verifPoint("idle.sweep.pending", conn.connID)
 
 		// We shouldn't get to a state where we have pending calls, but the connection
 		// is idle. This either means the max-idle time is too low, or there's a stuck call.
@@ -113,6 +118,7 @@ func (is *idleSweep) checkIdleConnections() {
 			conn.log.Error("Skip closing idle Connection as it has pending calls.")
 			continue
 		}
+		verifPoint("idle.sweep.recheck", conn.connID)
 
 		// The connection may have carried a call since it was collected above (a
 		// pending call got its response, or a call came and went while other idle
@@ -120,6 +126,7 @@ func (is *idleSweep) checkIdleConnections() {
 		if !is.isIdle(conn, now) {
 			continue
 		}
+		verifPoint("idle.sweep.close", conn.connID)
 
 		conn.close(
 			LogField{"reason", "Idle connection closed"},
@@ -127,6 +134,7 @@ func (is *idleSweep) checkIdleConnections() {
 			LogField{"lastActivityTimeWrite", conn.getLastActivityWriteTime()},
 		)
 	}
+	verifPoint("idle.sweep.done", 0)
 }
 
 // isIdle returns whether the connection has neither read nor written a call
